@@ -451,7 +451,10 @@ def law_sdl_default(field, name, kind, spelling):
     """an argument default written in the SDL = the same literal in a query = the same JSON value in a variable"""
     fx = fixture()
     spec = {"law": "sdl_default", "scalar": name, "kind": kind, "spelling": spelling, "field": field}
-    want = fx["scalars"][name].coerce_input(json_of(kind, spelling))
+    try:
+        want = fx["scalars"][name].coerce_input(json_of(kind, spelling))
+    except Exception as e:  # noqa - only values the input rules require to be accepted get here (sdl_default_fields)
+        raise Violation(spec, "%s must accept the %s %r as a variable value but raised %r" % (name, kind, json_of(kind, spelling), e), tag="sdl_default")
     ctx = {}
     resp = run_async(fx["engine"].execute("{ %s }" % field, context=ctx))
     if "errors" in resp or not same(ctx.get("got"), want):
